@@ -165,6 +165,18 @@ func C17(run *mon.Run) {
 					cases = append(cases, spockCase{"noncanonical-identity-and-identity", g, inf}, spockCase{"identity-and-noncanonical-identity", inf, g}, spockCase{"both-noncanonical-identity", g, g})
 				}
 			}
+			// ... and with several non-zero bytes that cancel under a sum or xor over the encoding
+			for gi, gb := range cancellingGarbage(r, 48) {
+				g := make([]byte, 48)
+				g[0] = 0xC0
+				for i, v := range gb {
+					g[i] |= v
+				}
+				cases = append(cases, spockCase{"noncanonical-identity-and-identity", g, inf})
+				if (gi+pi)%2 == 0 {
+					cases = append(cases, spockCase{"identity-and-noncanonical-identity", inf, g}, spockCase{"both-noncanonical-identity", g, g})
+				}
+			}
 			for _, hdr := range []byte{0xE0, 0x40, 0xC1, 0xD0, 0x80, 0xA0, 0x00} {
 				g := make([]byte, 48)
 				g[0] = hdr
